@@ -838,3 +838,76 @@ def h_while_iter(ch):
              oh.make_node("Loop", ["", "c0", "x"], ["y"], body=body)]
     g = oh.make_graph(nodes, "g_while_iter", [vi("x", TP.FLOAT, [2]), vi("n", TP.INT64, [])], [vi("y", TP.FLOAT, [2])])
     return model(g)
+
+
+# ---------------------------------------------------------------------------------------------------------
+# typed tensor constants: every element type the exporter renders through make_tensor, with the payloads that a
+# textual rendering can get wrong (non-finite elements of non-numpy float types, strings that contain 'inf'/'nan',
+# empty tensors, signed zeros); the constant reaches a graph output through Cast(to=FLOAT)/Identity only, so any
+# change of a single element is an output difference.
+# ---------------------------------------------------------------------------------------------------------
+import ml_dtypes as _mld  # noqa: E402
+
+_BF, _F8A, _F8B = _mld.bfloat16, _mld.float8_e4m3fn, _mld.float8_e5m2
+CONST_POOL.update({
+    "t:bf16": np.array([1.5, -2.0], _BF),
+    "t:bf16-x": np.array([1.5, np.inf, -np.inf, np.nan, -0.0], _BF),
+    "t:bf16-0d-inf": np.array(np.inf, _BF),
+    "t:bf16-0d": np.array(-3.0, _BF),
+    "t:f16-x": np.array([np.nan, -np.inf, -0.0, 6e4], np.float16),
+    "t:f16-0d-nan": np.array(np.nan, np.float16),
+    "t:f64-x": np.array([np.nan, np.inf, 1e300, -0.0], np.float64),
+    "t:f64-0d-ninf": np.array(-np.inf, np.float64),
+    "t:f8e4m3fn": np.array([1.5, -448.0, 0.015625], _F8A),
+    "t:f8e4m3fn-nan": np.array([1.5, np.nan], _F8A),
+    "t:f8e5m2": np.array([0.5, -57344.0], _F8B),
+    "t:f8e5m2-x": np.array([np.inf, -np.inf, np.nan, 0.5], _F8B),
+    "t:str": np.array(["p", "", "q r"], dtype=object),
+    "t:str-inf": np.array(["info", "nan", "-inf", "banana"], dtype=object),
+    "t:str-quote": np.array(["it's", 'say "x"', "a\\b", "\n"], dtype=object),
+    "t:u8": np.array([0, 255], np.uint8),
+    "t:i8": np.array([-128, 127], np.int8),
+    "t:i32": np.array([-2 ** 31, 2 ** 31 - 1], np.int32),
+    "t:u64": np.array([0, 2 ** 64 - 1], np.uint64),
+    "t:bool": np.array([True, False, True]),
+    "t:f32-empty": np.zeros((0,), F),
+    "t:i64-empty": np.zeros((0,), I),
+    "t:f32-2x0": np.zeros((2, 0), F),
+    "t:f32-2d-x": np.array([[1.0, np.nan], [np.inf, -0.0]], F),
+    "t:f32-4": np.array([1.0, np.nan, -np.inf, -0.0], F),
+    "t:i64-4": np.array([2 ** 62, -2 ** 63, 0, -1], I),
+    "t:c64": np.array([1 + 2j, complex(1, np.inf), complex(-0.0, -0.0)], np.complex64),
+})
+_TS = [k for k in CONST_POOL if k.startswith("t:")]
+_FLOATLIKE = (TP.BFLOAT16, TP.FLOAT16, TP.FLOAT8E4M3FN, TP.FLOAT8E5M2)
+
+
+@_h("h_ctypes", {"c": ("t:bf16", _TS)}, [dict(x=v) for v in _X2], tags=("const", "types"))
+def h_ctypes(ch):
+    """One tensor constant of a chosen element type, observed through Cast(to=FLOAT) (float-like types ORT cannot
+    hand back as numpy) or Identity."""
+    key, place = ch.get("c", ("t:bf16", "node"))
+    arr = CONST_POOL[key]
+    t = nh.from_array(arr, name="c")
+    et = t.data_type
+    nodes, inits = [], []
+    if place == "node":
+        t.name = "c_t"
+        nodes.append(oh.make_node("Constant", [], ["c"], value=t))
+    else:
+        inits.append(t)
+    outs = []
+    if et in _FLOATLIKE:
+        nodes.append(oh.make_node("Cast", ["c"], ["y"], to=TP.FLOAT))
+        yt = TP.FLOAT
+    else:
+        nodes.append(oh.make_node("Identity", ["c"], ["y"]))
+        yt = et
+    if et in _FLOATLIKE or et in (TP.FLOAT, TP.DOUBLE):
+        # 1/y makes the sign of a zero element observable (-0.0 -> -inf)
+        nodes.append(oh.make_node("Reciprocal", ["y"], ["r"]))
+        outs.append(vi("r", yt, list(arr.shape)))
+    nodes.append(oh.make_node("Neg", ["x"], ["z"]))
+    g = oh.make_graph(nodes, "g_ctypes", [vi("x", TP.FLOAT, [2])],
+                      [vi("y", yt, list(arr.shape)), vi("z", TP.FLOAT, [2])] + outs, initializer=inits)
+    return model(g, opset=21, ir=10)
